@@ -72,10 +72,19 @@ func (x *Explorer) call(fr *Frame, b *ssa.BasicBlock, idx int, ins *ssa.Call, st
 			fr.env[ins] = v
 			return false
 		}
-		fr.env[ins] = x.opaqueResult(st, ins, "invoke:"+cc.Method.Name(), append([]Val{recv}, args...))
-		return false
+		// a hand-written interface of the repository with exactly one implementation in it (a narrow
+		// "what I need from the keeper" interface): the call is a call of that method
+		if impl := x.soleRepoImpl(cc); impl != nil && x.shouldInline(impl, nil) {
+			callee = impl
+			args = append([]Val{recv}, args...)
+		} else {
+			fr.env[ins] = x.opaqueResult(st, ins, "invoke:"+cc.Method.Name(), append([]Val{recv}, args...))
+			return false
+		}
 	}
-	if sc := cc.StaticCallee(); sc != nil {
+	if callee != nil {
+		// resolved above
+	} else if sc := cc.StaticCallee(); sc != nil {
 		callee = sc
 		if mc, ok := cc.Value.(*ssa.MakeClosure); ok {
 			for _, bnd := range mc.Bindings {
@@ -233,6 +242,23 @@ func (x *Explorer) shouldInline(fn *ssa.Function, binds []Val) bool {
 		}
 	}
 	return false
+}
+
+// soleRepoImpl: the interface of an invoke is declared in a hand-written package of the repository and has
+// exactly one implementation among the repository's (non-mock) types.
+func (x *Explorer) soleRepoImpl(cc *ssa.CallCommon) *ssa.Function {
+	nt := namedOf(cc.Value.Type())
+	if nt == nil || nt.Obj().Pkg() == nil || !isRepoPkgPath(nt.Obj().Pkg().Path()) || strings.Contains(nt.Obj().Pkg().Path(), "/api/v2/") {
+		return nil
+	}
+	if x.graph == nil {
+		x.graph = NewGraph(x.P)
+	}
+	impls := x.graph.Impl(nt, cc.Method)
+	if len(impls) != 1 || len(impls[0].Blocks) == 0 {
+		return nil
+	}
+	return impls[0]
 }
 
 // isNilSafeGetter: Get<Field>() on a message pointer whose body is nothing but the nil test of the
